@@ -115,7 +115,7 @@ impl ChunkedBody {
                 let consumed = chunk_size_line_end + CRLF.len();
                 self.chunk_bytes_needed = parse_chunk_size(chunk_size_line)?;
                 self.buffer
-                    .reserve(self.buffer.len() + self.chunk_bytes_needed);
+                    .reserve(self.chunk_bytes_needed.min(raw_message.len()));
                 self.state = match self.chunk_bytes_needed {
                     0 => ChunkedBodyState::Trailer,
                     _ => ChunkedBodyState::ChunkData,
